@@ -1,6 +1,8 @@
 """Gated scheduler driver: resolvers block on harness-owned futures; the driver releases one
 blocked call site at a time and waits for loop quiescence, so a schedule is exactly a sequence of
 released response paths."""
+import warnings
+warnings.filterwarnings("ignore", message="coroutine .* was never awaited", category=RuntimeWarning)
 import asyncio
 import json
 
@@ -28,6 +30,12 @@ async def build_gated_engine(s, schema_name, oracle_ref, rec, cfg):
     def mk(tname, f):
         fname, ftype = f["name"], f["type"]
         kw = dict(schema_name=schema_name, parent_concurrently=cfg["parent"], list_concurrently=cfg["list"])
+        if "mixed" in cfg:
+            # per-field settings: siblings of one selection set are a MIX of concurrent, sequential and "engine default"
+            import zlib
+            h = zlib.crc32(("%s.%s/%d" % (tname, fname, cfg["mixed"])).encode())
+            kw["parent_concurrently"] = [True, False, None][h % 3]
+            kw["list_concurrently"] = [True, False, None][(h // 3) % 3]
         if cfg.get("args") == "sync":
             from tartiflette.resolver.default import sync_arguments_coercer
             kw["arguments_coercer"] = sync_arguments_coercer
